@@ -630,10 +630,12 @@ package composite
 //@ ghost rounds int = 0
 //@ ghost stable bool = false
 //@ ghost lastRsp ref = nilof(*fnv1.RunFunctionResponse)
+//@ macro UNTOUCHED(r) = r.Desired == old(req.Desired) && r.Observed == old(req.Observed) && r.Input == old(req.Input) && r.Credentials == old(req.Credentials) && r.Meta == old(req.Meta)
 //@ macro HASFATAL(r) = exists f :: 0 <= f && f < len(r.Results) && r.Results[f] != nil && r.Results[f].Severity == fnv1.Severity_SEVERITY_FATAL
 //@ let $last = result (composite.FunctionRunner).RunFunction
 //@ site (composite.FunctionRunner).RunFunction(_, _, $n, $r)
 //@   assert [C04:wrapped-function-gets-the-callers-name-and-request] $n == name && $r == req
+//@   assert [C04:every-round-runs-on-the-state-the-caller-supplied] UNTOUCHED($r)
 //@   assert [C04:bounded-number-of-rounds] rounds <= 5
 //@   update rounds = rounds + 1
 //@   assert [C03,C04:no-further-call-after-a-fatal-result] lastRsp != nil ==> !HASFATAL(lastRsp)
@@ -652,6 +654,7 @@ package composite
 //@   invariant [C04:rounds-counted] rounds == i && 0 <= i
 //@   invariant [C04,C03:remembered-requirements-are-the-latest-responses] requirements == curReq
 //@   invariant [C04,C03:no-response-so-far-carried-a-fatal-result] lastRsp != nil ==> !HASFATAL(lastRsp)
+//@   invariant [C04:only-extra-resources-and-context-change-between-rounds] UNTOUCHED(req)
 //@ loop range rsp.GetResults()
 //@   invariant [C04,C03:no-fatal-result-so-far] forall j :: 0 <= j && j < done ==> !(ranged[j] != nil && ranged[j].Severity == fnv1.Severity_SEVERITY_FATAL)
 //@   invariant [C04:results-of-the-latest-response] rsp == lastRsp
